@@ -447,6 +447,7 @@ class RecAdvertiser:
     def _rec(self, what, info):
         props = dict(info.decoded_properties)
         self.events.append({"ev": what, "sf": props.get("sf"), "c#": props.get("c#"), "id": props.get("id"),
+                            "props": props,
                             "npaired": len(self.state.paired_clients), "cfg": self.state.config_version})
 
     def async_register_service(self, info, **_kw):
@@ -815,6 +816,18 @@ def _uid(c: int) -> uuid.UUID:
     return uuid.UUID(int=c + 1)
 
 
+SYS_NAMES = ["Ordering", "Lamp", "\u00e9 Lamp!", "--h a p p y--", "!!!", "x" * 70, "Bridge 2"]
+
+
+def gen_sys_acc(rng) -> Dict[str, Any]:
+    """The accessory an event script runs on: name, category and the configuration number it starts with."""
+    return {"name": rng.choice(SYS_NAMES), "category": rng.choice([1, 2, 5, 8, 17, rng.randrange(256)]),
+            "cfg0": rng.choice([1, 1, 2, 65534, 65535, 65535, rng.randrange(1, 65536)])}
+
+
+DEFAULT_SYS_ACC = {"name": "Ordering", "category": 1, "cfg0": 1}
+
+
 def gen_sys_script(rng, big=False) -> Dict[str, Any]:
     nclients = rng.choice([1, 2, 3])
     paired = []
@@ -827,6 +840,7 @@ def gen_sys_script(rng, big=False) -> Dict[str, Any]:
         conns[str(k)] = rng.choice([None, 0, 0, 1, rng.randrange(nclients)])
     steps = []
     busy: List[str] = []  # connections with a deferred response, oldest first
+    app = rng.random() < 0.5  # half of the scripts also use the application-side driver API
     for _ in range(rng.randrange(2, 14 if not big else 30)):
         r = rng.random()
         free = [c for c in conns if c not in busy]
@@ -845,6 +859,15 @@ def gen_sys_script(rng, big=False) -> Dict[str, Any]:
             elif kind == "resource":
                 busy.append(conn)
             steps.append(st)
+        elif r < 0.62 and app:
+            # the application side of the driver API (no request, no response)
+            k = rng.random()
+            if k < 0.5:
+                steps.append({"step": "configChanged"})
+            elif k < 0.75:
+                steps.append({"step": "appRefresh"})
+            else:
+                steps.append({"step": "appUnpair", "client": rng.randrange(nclients + 1)})
         elif r < 0.7:
             steps.append({"step": "exec", "i": rng.choice([0, 0, 0, 1, 2])})
         elif r < 0.85 or not busy:
@@ -853,7 +876,7 @@ def gen_sys_script(rng, big=False) -> Dict[str, Any]:
             steps.append({"step": "taskDone", "i": 0})
             busy.pop(0)
     steps.append({"step": "quiesce"})
-    return {"paired": paired, "conns": conns, "steps": steps}
+    return {"paired": paired, "conns": conns, "steps": steps, "acc": gen_sys_acc(rng)}
 
 
 def gen_real_script(rng) -> Dict[str, Any]:
@@ -871,7 +894,7 @@ def gen_real_script(rng) -> Dict[str, Any]:
         if rng.random() < 0.6:
             steps += [{"step": "request", "conn": 0, "req": "m5real", "client": (c0 + 1) % 3}] + sched()
     steps.append({"step": "quiesce"})
-    return {"paired": [], "conns": conns, "steps": steps}
+    return {"paired": [], "conns": conns, "steps": steps, "acc": gen_sys_acc(rng)}
 
 
 BOUNDARY_SCRIPTS = [
@@ -918,6 +941,18 @@ BOUNDARY_SCRIPTS = [
     # pair-setup against an accessory that is already paired is refused at M1
     {"paired": [[0, True]], "conns": {"0": None}, "steps": [
         {"step": "request", "conn": 0, "req": "m5real", "client": 1}, {"step": "quiesce"}]},
+    # config_changed at 65535 wraps the advertised number to 1, between a pairing and its refresh
+    {"paired": [], "conns": {"0": None}, "acc": {"name": "Wrap", "category": 5, "cfg0": 65535}, "steps": [
+        {"step": "request", "conn": 0, "req": "m5", "client": 0, "ok": True}, {"step": "configChanged"},
+        {"step": "exec", "i": 0}, {"step": "drain"}, {"step": "configChanged"}, {"step": "quiesce"}]},
+    # the application unpairs the last admin through the driver API: no refresh until it asks for one
+    {"paired": [[0, True], [1, False]], "conns": {"0": 0}, "acc": {"name": "!!!", "category": 2, "cfg0": 7}, "steps": [
+        {"step": "appUnpair", "client": 0}, {"step": "drain"}, {"step": "appUnpair", "client": 2},
+        {"step": "appRefresh"}, {"step": "quiesce"}]},
+    # application-requested refresh while a pairing's own refresh is still with the executor
+    {"paired": [], "conns": {"0": None}, "acc": {"name": "x" * 70, "category": 255, "cfg0": 65534}, "steps": [
+        {"step": "request", "conn": 0, "req": "m5real", "client": 1}, {"step": "appRefresh"}, {"step": "drain"},
+        {"step": "configChanged"}, {"step": "configChanged"}, {"step": "exec", "i": 0}, {"step": "quiesce"}]},
     # failed M5 and unauthorised pairings requests change nothing
     {"paired": [], "conns": {"0": None}, "steps": [
         {"step": "request", "conn": 0, "req": "m5", "client": 0, "ok": False},
@@ -1021,9 +1056,14 @@ def impl_sys(m, script) -> Dict[str, Any]:
         current = {"conn": None}
         for c, adm in script["paired"]:
             driver.state.add_paired_client(_uname(c), bytes([c + 1]) * 32, b"\x01" if adm else b"\x00")
-        acc = m.accessory.Accessory(driver, "Ordering")
+        ident = script.get("acc") or DEFAULT_SYS_ACC
+        acc = m.accessory.Accessory(driver, ident["name"])
+        acc.category = ident["category"]
         driver.add_accessory(acc)
         with patch("pyhap.hap_protocol.HAPCrypto", PassThroughCrypto):
+            # the configuration number the script starts with: what async_start's hash comparison leaves behind
+            driver.state.accessories_hash = driver.accessories_hash
+            driver.state.config_version = ident["cfg0"]
             start_driver(env)
             connections: Dict[Any, Any] = {}
             protos = {}
@@ -1040,6 +1080,7 @@ def impl_sys(m, script) -> Dict[str, Any]:
             rid = 0
             execs_since_spin = 0
             model_steps = []
+            app_unpairs: List[int] = []  # event index at which the application unpaired somebody
 
             def flush_loop():
                 nonlocal execs_since_spin
@@ -1136,6 +1177,21 @@ def impl_sys(m, script) -> Dict[str, Any]:
                     model_steps.append({"step": "execRun", "i": st["i"]})
                 elif st["step"] == "drain":
                     flush_loop()
+                elif st["step"] == "configChanged":
+                    driver.config_changed()
+                    execs_since_spin += 1  # one more callback waits in the loop
+                    model_steps.append({"step": "configChanged"})
+                elif st["step"] == "appRefresh":
+                    driver.update_advertisement()
+                    execs_since_spin += 1
+                    model_steps.append({"step": "appRefresh"})
+                elif st["step"] == "appUnpair":
+                    try:
+                        driver.unpair(_uid(st["client"]))
+                        app_unpairs.append(len(events))
+                    except KeyError:
+                        pass  # not paired: the call raises before it touches anything
+                    model_steps.append({"step": "appUnpair", "client": st["client"]})
                 elif st["step"] == "taskDone":
                     if st["i"] < len(deferred):
                         conn, drid, fut = deferred.pop(st["i"])
@@ -1162,8 +1218,11 @@ def impl_sys(m, script) -> Dict[str, Any]:
             final = sorted([[int(u.int) - 1, bool(driver.state.is_admin(u))] for u in driver.state.paired_clients])
             pending = len(ex.pending)
             closed = sorted(k for k, p in protos.items() if p.transport.is_closing())
+            final_cfg = driver.state.config_version
+            sh = events[0]["props"].get("sh") if events else None
     return {"events": events, "reqs": reqs, "final": final, "model_steps": model_steps, "pending": pending,
-            "closed": closed, "dropped": dropped}
+            "closed": closed, "dropped": dropped, "final_cfg": final_cfg, "sh": sh, "app_unpairs": app_unpairs,
+            "ident": ident}
 
 
 def canon_sys_impl(got) -> Dict[str, Any]:
@@ -1179,18 +1238,21 @@ def canon_sys_impl(got) -> Dict[str, Any]:
         elif e["ev"] == "cipher":
             log.append(["cipher", e["conn"], cur])
         elif e["ev"] == "publish":
-            log.append(["publish", e["sf"]])
+            log.append(["publish", e["props"]])
     last = [e for e in got["events"] if e["ev"] in ("register", "publish")]
+    reg = [e for e in got["events"] if e["ev"] == "register"]
     return {"log": log, "paired": got["final"], "pending": got["pending"], "adv_sf": last[-1]["sf"] if last else None,
-            "closed": got["closed"]}
+            "closed": got["closed"], "cfg": got["final_cfg"], "registered": reg[0]["props"] if reg else None,
+            "adv": last[-1]["props"] if last else None}
 
 
 def canon_sys_model(ans) -> Dict[str, Any]:
     log = []
     for e in ans.get("log", []):
-        log.append(["publish", e[2]] if e[0] == "publish" else e)
+        log.append(["publish", dict(e[2])] if e[0] == "publish" else e)
     return {"log": log, "paired": sorted(ans.get("paired", [])), "pending": ans.get("pending"), "adv_sf": ans.get("adv_sf"),
-            "closed": sorted(ans.get("closed", []))}
+            "closed": sorted(ans.get("closed", [])), "cfg": ans.get("cfg"), "registered": dict(ans.get("registered", [])),
+            "adv": dict(ans.get("adv", []))}
 
 
 def oracle_sys(ctx: Ctx, script, got):
@@ -1206,6 +1268,13 @@ def oracle_sys(ctx: Ctx, script, got):
                 return
             if e["id"] != MAC:
                 ctx.fail("C18:id-not-mac", f"record id {e['id']!r}", rep)
+                return
+            # the advertised configuration number is the accessory's current one and stays within 1..65535
+            if not (isinstance(e["c#"], str) and e["c#"].isascii() and e["c#"].isdigit() and 1 <= int(e["c#"]) <= 65535):
+                ctx.fail("C18:config-number-out-of-range", f"record handed to the advertiser carries c#={e['c#']!r}", rep)
+                return
+            if e["c#"] != str(e["cfg"]):
+                ctx.fail("C18:cfg-not-advertised", f"record carries c#={e['c#']!r} while config_version is {e['cfg']}", rep)
                 return
     # (2) the refreshed record of the last step of pairing / unpairing comes after that step's response:
     #     no record reaches the advertiser between the arrival of the request and the moment the response
@@ -1227,7 +1296,13 @@ def oracle_sys(ctx: Ctx, script, got):
         if w is None and quiesced:
             ctx.fail("C18:pairing-response-not-written", f"request {r['rid']} ({r['kind']}) got no response", rep)
             return
-    # (3) once everything scheduled has run, the advertised flag is that of the final state
+    # (3) once everything scheduled has run, the advertised flag is that of the final state.  Scope: pairing
+    #     histories made of protocol steps; `AccessoryDriver.unpair` called by the application itself is not
+    #     a step with a response and does not refresh anything (the application has to ask for it, as e.g.
+    #     Home Assistant does) -- such a script is judged only if a refresh was requested after the last such call
+    if quiesced and got.get("app_unpairs"):
+        # a record built after the last application-level unpair reflects it
+        quiesced = any(e["ev"] == "publish" for e in ev[got["app_unpairs"][-1]:])
     if quiesced:
         last = [e for e in ev if e["ev"] in ("register", "publish")]
         final_unpaired = len(got["final"]) == 0
@@ -1459,8 +1534,11 @@ def run(ctx: Ctx):
     for i, script in enumerate(scripts):
         got = impl_sys(m, script)
         oracle_sys(ctx, script, got)
+        ident = got["ident"]
         lines.append({"layer": "advert", "op": "sys", "paired": script["paired"], "steps": got["model_steps"],
-                      "sessions": [[int(k), v] for k, v in script["conns"].items() if v is not None]})
+                      "sessions": [[int(k), v] for k, v in script["conns"].items() if v is not None],
+                      "name": _cps(ident["name"]), "category": ident["category"], "mac": MAC, "cfg": ident["cfg0"],
+                      "sh": got["sh"] or ""})
         impl.append(canon_sys_impl(got))
         post.append(("sys", script, canon_sys_model))
         changing = [r for r in got["reqs"] if r["m5ok"] or ((r["before"] == 0) != (r["after"] == 0))]
